@@ -49,16 +49,22 @@ def run_case(case):
         world.pump_sender()
         order = case['order'](world)
         seen = set()
-        for idx in order:
-            if idx in seen:
-                once = False
-            seen.add(idx)
-            world.deliver(idx, fresh=idx not in seen)
-        if set(range(len(world.pending))) - seen:
-            pass
+
+        def own(part):
+            nonlocal once
+            for idx in part:
+                if idx in seen:
+                    once = False
+                seen.add(idx)
+                world.deliver(idx, fresh=idx not in seen)
+
+        # datagrams of other peers arrive in between those of the sender (interleaved) or after them
+        cut = len(order) // 2 if case.get('interleave') else len(order)
+        own(order[:cut])
+        foreign_steps = []
         for extra in case.get('foreign', []):
             (src, xid, data, cuts, perm) = extra
-            key = 'f%s:%d' % (src[0], xid)
+            key = 'f%s:%d:%d' % (src[0], src[1], xid)
             world.requests[key] = data
             world.by_dig[dig(data)] = key
             world.emit('Request', x=key, total=len(data), dig=dig(data))
@@ -67,9 +73,15 @@ def run_case(case):
                 world.emit('Piece', x=key, kind='seg', size=0, off=o, len=n, total=len(data), dataok=True, lensok=True,
                            idx=-1, last=False, reenc=True)
             for i in perm:
-                (o, n) = cuts[i]
-                world.emit('Arrive', x=key, off=o, len=n, total=len(data), fresh=True)
-                world.inject(dgrams[i], src)
+                foreign_steps.append((key, src, cuts[i], dgrams[i], len(data)))
+        rest = list(order[cut:])
+        while foreign_steps or rest:
+            if foreign_steps:
+                (key, src, (o, n), dgram, total) = foreign_steps.pop(0)
+                world.emit('Arrive', x=key, off=o, len=n, total=total, fresh=True)
+                world.inject(dgram, src)
+            if rest:
+                own([rest.pop(0)])
         for comp in case.get('composed', []):
             (parts, label) = comp
             data = b''
@@ -149,6 +161,16 @@ def executions(tier, seed):
             perm = list(range(3))
             rnd.shuffle(perm)
             case['foreign'] = [(('10.0.0.3', 40002), 0, data, cuts, perm)]
+        elif k % 3 == 1 and style != 'drop':
+            # another peer on the sender's own address (other port) re-using transfer id 0, with the same or another
+            # total length, its segments arriving in between those of the sender
+            data = bundle_like(n1 if k % 2 else 50, 950 + k)
+            third = max(1, len(data) // 3)
+            cuts = [(0, third), (third, third), (2 * third, len(data) - 2 * third)]
+            perm = list(range(3))
+            rnd.shuffle(perm)
+            case['foreign'] = [((SENDER[0], 40777), 0, data, cuts, perm)]
+            case['interleave'] = True
         out.append(case)
     # several messages / padding in one datagram
     for k in range(12 if tier == 'quick' else 100):
